@@ -244,8 +244,8 @@ class C16(Prop):
     def signature(self, c, o, clause):
         kinds = "failstop" if any(f[3] in ("failstop", "partial") for f in c["faults"]) else ("soft" if c["faults"] else "none")
         part = sorted({f[2] for f in c["faults"] if f[3] == "partial"})
-        if part:
-            kinds = "partial@" + "+".join(part)
+        if part and clause == "outputs-differ":
+            kinds = "partial@" + "+".join(part)   # (for the exhaust-limit clauses a partial loss is a loss like any other)
         jobs = [(f[0], f[1]) for f in c["faults"]]
         if clause == "outputs-differ" and c["shape"]["kind"] == "scatter" and len(set(jobs)) < len(jobs):
             kinds += "+multiphase"   # some job fails in two different phases
